@@ -189,13 +189,13 @@ def refresh_changing_deps(root, spec, r):
         open(os.path.join(root, f'glb_s{i}_{r % 2}.glb'), 'w').write(f'{r}\n')
 
 
-def mk_case(spec, pool, behav=None, sched=None, runs=1, missing=(), absent_outputs=False, label='', touch_inputs=False):
+def mk_case(spec, pool, behav=None, sched=None, runs=1, missing=(), absent_outputs=False, label='', touch_inputs=False, fault=None):
     n = spec['n']
     behav = behav or [{} for _ in range(n)]
     behav = [dict({'rc': b.get('rc', 0), 'sleep_ms': b.get('sleep_ms', 0), 'out': b.get('out', 0), 'err': b.get('err', 0)},
                   **({'signal': b['signal'], 'sigtouch': bool(b.get('sigtouch'))} if b.get('signal') else {})) for b in behav]
     return {'spec': spec, 'pool': pool, 'behav': behav, 'sched': sched, 'runs': runs, 'missing': sorted(missing),
-            'absent_outputs': bool(absent_outputs), 'label': label, 'touch_inputs': bool(touch_inputs)}
+            'absent_outputs': bool(absent_outputs), 'label': label, 'touch_inputs': bool(touch_inputs), **({'fault': fault} if fault else {})}
 
 
 def case_key(case):
@@ -318,6 +318,137 @@ def _proc_cpu_ticks(pid):
     return ticks, states
 
 
+def _observe_overdue(p):
+    """p is still alive at its timeout: watch it.  Returns (hung, live children, hang record, (out, err) if finished).  Not hung when it finishes
+    within the grace period (3 s windows, up to 60 s while it keeps using CPU)."""
+    waited, window = 0.0, 3.0
+    while True:
+        c0, _ = _proc_cpu_ticks(p.pid)
+        tw = time.time()
+        try:
+            outerr = p.communicate(timeout=window)       # keeps draining the pipes, if any
+            return False, [], None, outerr               # finished after all: slow, not hung
+        except subprocess.TimeoutExpired:
+            pass
+        elapsed = time.time() - tw
+        waited += elapsed
+        c1, states = _proc_cpu_ticks(p.pid)
+        busy = (c1 - c0) if (c0 is not None and c1 is not None) else 0
+        stalled = elapsed > 2 * window                  # the observer itself was not scheduled: the machine stalled again
+        if (not stalled and busy < 30) or waited > 60:
+            return True, _proc_children(p.pid), {'alive_after_timeout_s': round(waited, 1), 'cpu_ticks_in_last_window': busy,
+                                                 'threads': sorted(states)[:40]}, None
+
+
+FAULTS = ['stdout-closed', 'stdout-head1', 'stdout-64bytes', 'stderr-closed', 'stderr-head1', 'both-closed', 'stdout-devfull', 'both-devfull']
+
+
+def _pgrp_members(pgid, comm_prefix='xvc'):
+    out = []
+    for d in os.listdir('/proc'):
+        if not d.isdigit():
+            continue
+        try:
+            st = open(f'/proc/{d}/stat').read()
+        except OSError:
+            continue
+        r = st.rindex(')')
+        comm = st[st.index('(') + 1:r]
+        f = st[r + 2:].split()
+        if int(f[2]) == pgid and f[0] != 'Z' and comm.startswith(comm_prefix):
+            out.append((int(d), comm, f[0]))
+    return out
+
+
+def run_xvc_fault(ctx, root, env, binary, pool, timeout, fault, rbase):
+    """`xvc pipeline run` whose output cannot be delivered: the reader of the stdout (stderr) pipe goes away at once
+    (`| true`), after the first line (`| head -1`), after 64 bytes, or the stream is /dev/full (every write fails, ENOSPC)."""
+    argv = [binary, '--skip-git', '-c', f'pipeline.process_pool_size={pool}', 'pipeline', 'run']
+    files, readers, closers = {}, [], []
+
+    def stream(name):
+        mode = None
+        if fault.startswith(name + '-') or fault.startswith('both-'):
+            mode = fault.split('-', 1)[1]
+        if mode is None:
+            f = open(os.path.join(rbase, f'fault.{name}'), 'wb')
+            files[name] = f.name
+            closers.append(f)
+            return f
+        if mode == 'devfull':
+            f = open('/dev/full', 'wb')
+            closers.append(f)
+            return f
+        r, w = os.pipe()
+        got = bytearray()
+
+        def reader():
+            try:
+                if mode == 'head1':
+                    while b'\n' not in got:
+                        b = os.read(r, 1)
+                        if not b:
+                            break
+                        got.extend(b)
+                elif mode.endswith('bytes'):
+                    n = int(mode[:-5])
+                    while len(got) < n:
+                        b = os.read(r, n - len(got))
+                        if not b:
+                            break
+                        got.extend(b)
+            finally:
+                os.close(r)                     # the reader goes away
+        if mode == 'closed':
+            os.close(r)
+        else:
+            t = threading.Thread(target=reader, daemon=True)
+            t.start()
+            readers.append(t)
+        files[name + '_read'] = got
+        closers.append(os.fdopen(w, 'wb'))
+        return closers[-1]
+    so, se = stream('stdout'), stream('stderr')
+    t0 = time.time()
+    p = subprocess.Popen(argv, cwd=root, env=env, stdout=so, stderr=se, start_new_session=True)
+    for c in closers:
+        try:
+            c.close()
+        except OSError:
+            pass
+    timed_out, children, hang = False, [], None
+    try:
+        p.wait(timeout=timeout)
+    except subprocess.TimeoutExpired:
+        timed_out, children, hang, _ = _observe_overdue(p)
+    leftover = []
+    if not timed_out:
+        time.sleep(0.3)
+        leftover = _pgrp_members(p.pid)
+        if leftover:
+            time.sleep(1.5)
+            leftover = _pgrp_members(p.pid)
+    try:
+        os.killpg(p.pid, signal.SIGKILL)
+    except OSError:
+        pass
+    try:
+        p.wait(timeout=10)
+    except subprocess.TimeoutExpired:
+        pass
+
+    def text(name):
+        if name in files:
+            try:
+                return open(files[name], 'rb').read().decode('utf-8', 'replace')
+            except OSError:
+                return ''
+        return bytes(files.get(name + '_read', b'')).decode('utf-8', 'replace')
+    return {'rc': 124 if timed_out else p.returncode, 'timed_out': timed_out, 'live_children': children, 'hang': hang,
+            'leftover_xvc_processes': leftover, 'fault': fault,
+            'stdout': text('stdout'), 'stderr': text('stderr'), 'wall': round(time.time() - t0, 3)}
+
+
 def run_xvc(ctx, root, env, binary, pool, timeout, verbose=False):
     """one `xvc pipeline run`; returns observation dict.
     A run that is still alive at the timeout is OBSERVED before it is judged: if it finishes within the grace period it was
@@ -331,32 +462,15 @@ def run_xvc(ctx, root, env, binary, pool, timeout, verbose=False):
     try:
         out, err = p.communicate(timeout=timeout)
     except subprocess.TimeoutExpired:
-        out = err = None
-        waited, window = 0.0, 3.0
-        while True:
-            c0, _ = _proc_cpu_ticks(p.pid)
-            tw = time.time()
-            try:
-                out, err = p.communicate(timeout=window)
-                break                                   # finished after all: slow, not hung
-            except subprocess.TimeoutExpired:
-                pass
-            elapsed = time.time() - tw
-            waited += elapsed
-            c1, states = _proc_cpu_ticks(p.pid)
-            busy = (c1 - c0) if (c0 is not None and c1 is not None) else 0
-            stalled = elapsed > 2 * window              # the observer itself was not scheduled: the machine stalled again
-            if (not stalled and busy < 30) or waited > 60:
-                timed_out = True
-                children = _proc_children(p.pid)
-                hang = {'alive_after_timeout_s': round(waited, 1), 'cpu_ticks_in_last_window': busy, 'threads': sorted(states)[:40]}
-                break
+        timed_out, children, hang, outerr = _observe_overdue(p)
         if timed_out:
             try:
                 os.killpg(p.pid, signal.SIGKILL)
             except OSError:
                 pass
             out, err = p.communicate()
+        else:
+            out, err = outerr
     return {'rc': 124 if timed_out else p.returncode, 'timed_out': timed_out, 'live_children': children, 'hang': hang,
             'stdout': out.decode('utf-8', 'replace'), 'stderr': err.decode('utf-8', 'replace'), 'wall': round(time.time() - t0, 3)}
 
@@ -420,7 +534,10 @@ def run_case(ctx, case, hook=False, timeout=20, keep=False):
                 os.unlink(pth)
             except OSError:
                 pass
-        o = run_xvc(ctx, root, env, ctx.xvc_hook if hook else ctx.xvc, case['pool'], timeout)
+        if case.get('fault'):
+            o = run_xvc_fault(ctx, root, env, ctx.xvc_hook if hook else ctx.xvc, case['pool'], timeout, case['fault'], rbase)
+        else:
+            o = run_xvc(ctx, root, env, ctx.xvc_hook if hook else ctx.xvc, case['pool'], timeout)
         try:
             o['journal'] = parse_journal(open(jp).read())
         except OSError:
@@ -467,6 +584,18 @@ def oracle(case, o, first_run=True):
     starts, ends = {}, {}
     for e in J:
         (starts if e['kind'] == 'start' else ends).setdefault(e['step'], []).append(e)
+    # ---- output fault: only C11's headline can be judged (what was printed is gone): the run terminates, whatever its exit
+    # status (a panic exit is fine), and leaves no xvc process behind
+    if case.get('fault'):
+        if o['timed_out']:
+            fail('C11', 'terminates', f'xvc pipeline run with output fault `{case["fault"]}` did not terminate within {o["wall"]} s '
+                 f'(step commands sleep at most {max(b["sleep_ms"] for b in case["behav"])} ms)',
+                 fault=case['fault'], live_children=o['live_children'], hang=o.get('hang'), attempt=o.get('run'), journal=J,
+                 stderr_tail=o['stderr'][-600:])
+        elif o.get('leftover_xvc_processes'):
+            fail('C11', 'leftover', f'xvc pipeline run with output fault `{case["fault"]}` ended (status {o["rc"]}) but left processes behind',
+                 leftover=o['leftover_xvc_processes'], fault=case['fault'])
+        return fails
     # ---- cycle: rejected before any command runs
     if has_cycle(spec):
         if o['timed_out']:
@@ -644,7 +773,9 @@ def signature(case, f):
     spec = case['spec']
     deps = spec_deps(spec)
     sig = {'property': f['property'], 'clause': f['clause']}
-    if f['clause'] == 'terminates':
+    if f['clause'] in ('terminates', 'leftover') and case.get('fault'):
+        sig['kind'] = 'hang-when-output-cannot-be-delivered' if f['clause'] == 'terminates' else 'process-left-behind-after-output-fault'
+    elif f['clause'] == 'terminates':
         if any(b['err'] > PIPE_BUF_LINUX for b in case['behav']):
             sig['kind'] = 'stderr-over-pipe-buffer'
         elif case.get('missing'):
@@ -830,6 +961,8 @@ def run_family(ctx, stream, cases, own, hook=False, timeout=20, workers=8, valid
         for b in case['behav']:
             chk.count('outcome:' + (f'signal-{b["signal"]}' + ('-after-writing-output' if b.get('sigtouch') else '') if b.get('signal')
                                     else ('exit-nonzero' if b['rc'] else 'exit-0')))
+        if case.get('fault'):
+            chk.count('fault:' + case['fault'])
         for key in ('unspawnable', 'generic', 'textdeps', 'missing'):
             k = len(case['spec'].get(key, [])) if key != 'missing' else len(case.get('missing', []))
             if k:
@@ -901,7 +1034,7 @@ def run_family(ctx, stream, cases, own, hook=False, timeout=20, workers=8, valid
             chk.notes.append(f'{stream}: {len(lst)} run(s) violate {prop} clause `{clause}` ({kind}); reported by ./check {prop}: {f["what"]}')
             continue
         if shrink:
-            small = minimise(ctx, case, prop, clause, hook, timeout=min(timeout, 8))
+            small = minimise(ctx, case, prop, clause, hook, timeout=min(timeout, 8), budget=shrink if isinstance(shrink, int) and shrink > 1 else 14)
             obs = run_case(ctx, small, hook=hook, timeout=min(timeout, 8))
             ff = [x for oo in obs for x in oracle(small, oo) if x['property'] == prop and x['clause'] == clause]
         else:
@@ -910,6 +1043,18 @@ def run_family(ctx, stream, cases, own, hook=False, timeout=20, workers=8, valid
             small, ff = case, [f]
             obs = [o]
         detail = dict(ff[0]['detail'])
+        if small.get('fault') and clause == 'terminates' and not hook and ctx.xvc_hook:
+            # second pass on the hook build: which steps never reach a final state (the trace file is not affected by the fault)
+            try:
+                o2 = run_case(ctx, small, hook=True, timeout=min(timeout, 8))[0]
+                fin = trace_final_states(o2.get('trace', []))
+                detail['hook_build_second_pass'] = {
+                    'hung_too': o2['timed_out'],
+                    'steps_without_final_state': [f's{i}' for i in range(small['spec']['n'])
+                                                  if fin.get(f's{i}', '').split('(')[0] not in ('DoneByRunning', 'DoneWithoutRunning', 'Broken')],
+                    'last_states': fin, 'thread_failures': sorted(_failed_threads(o2.get('trace', [])))}
+            except Exception as ex:
+                detail['hook_build_second_pass'] = repr(ex)
         detail.update({'occurrences_in_stream': len(lst), 'stream': stream, 'hook_build': hook,
                        'stdout_tail': obs[-1]['stdout'][-300:], 'stderr_tail': obs[-1]['stderr'][-300:],
                        'how_built': describe(small)})
@@ -948,7 +1093,10 @@ def describe(case):
     for i in spec.get('unspawnable', []):
         L.append(f"printf 'first\\nsecond\\0line\\nthird\\n' > {nul_path(i)}; xvc pipeline step dependency -s s{i} --line_items '{nul_path(i)}::1-3'"
                  '   # NUL byte in XVC_ALL_LINE_ITEMS: the command of this step cannot be spawned (EINVAL)')
-    L.append(f'xvc -c pipeline.process_pool_size={case["pool"]} pipeline run' + (f'   # x{case["runs"]}' if case.get('runs', 1) > 1 else ''))
+    how = {'stdout-closed': ' | true', 'stdout-head1': ' | head -1', 'stdout-64bytes': ' | head -c 64', 'stderr-closed': ' 2>&1 >/dev/null | true',
+           'stderr-head1': ' 2>&1 >/dev/null | head -1', 'both-closed': ' 2>&1 | true', 'stdout-devfull': ' > /dev/full', 'both-devfull': ' > /dev/full 2>&1'}
+    L.append(f'xvc -c pipeline.process_pool_size={case["pool"]} pipeline run' + how.get(case.get('fault'), '') +
+             (f'   # x{case["runs"]}' if case.get('runs', 1) > 1 else '') + ('   # reader gone before xvc starts' if case.get('fault', '').endswith('closed') else ''))
     return L
 
 
